@@ -718,7 +718,7 @@ func builtinKeys(i *Interpreter, args []Expr, env *Environment) (interface{}, er
 		return nil, fmt.Errorf("keys() expects an object argument, got %T", objArg)
 	}
 	keys := make([]interface{}, 0, len(obj))
-	for k := range obj {
+	for _, k := range sortedObjectKeys(obj) {
 		keys = append(keys, k)
 	}
 	return keys, nil
